@@ -53,6 +53,10 @@ def run(ctx):
     report_witness(r1, "src/gwf/plugins/run.py::run::witness-project", "src/gwf/plugins/run.py:1", cached_witness(ctx, "run", run_command_witness),
                    "hashes are recorded for exactly the accepted submissions, none on a dry run or for a rejected submission",
                    select=lambda d: "hash" in d or "ends with" in d)
+    from .schedmodel import cluster_witness
+    report_witness(r1, "src/gwf/backends::<X>Ops.submit_target::scheduler-model", "src/gwf/backends/slurm.py:1", cached_witness(ctx, "cluster", cluster_witness),
+                   "a submission the scheduler did not accept (its answer names no job) raises, so no hash is recorded for it",
+                   select=lambda d: d.startswith("[refuse]") and "no job id" in d)
     r2 = ctx.rule("R2", "the use_spec_hashes switch (default off) selects the store; the disabled store is effect-free and never reports a change", min_instances=4)
     from .evalhelpers import eval_get_spec_hashes
     from .shared import rule_config_switch
